@@ -77,32 +77,33 @@ Lemma length_write_bigint out idx enc :
 Proof. unfold write_bigint. rewrite length_pad_to, length_write_loop. destruct enc; cbn [length]; lia. Qed.
 
 (* ================================================================= B. bank windows *)
+Lemma ends_after_false o sz other : ends_after o sz other = false -> o + sz <= other.
+Proof.
+  unfold ends_after. destruct (checked_add o sz) as [e|] eqn:E; [|discriminate]. apply checked_add_some in E. llia.
+Qed.
+Lemma ends_after_true o sz other : other < o + sz -> ends_after o sz other = true.
+Proof.
+  unfold ends_after. intro H. destruct (checked_add o sz) as [e|] eqn:E; [|reflexivity]. apply checked_add_some in E. llia.
+Qed.
+
 Lemma windows_overlap_false b1 b2 : windows_overlap b1 b2 = Ok false -> windows_disjoint b1 b2.
 Proof.
   unfold windows_overlap, windows_disjoint, in_window. intros H k.
   destruct (bk_outp b1) as [o1|]; [|tauto]. destruct (bk_outp b2) as [o2|]; [|tauto].
-  destruct (bk_size b1) as [s1|], (bk_size b2) as [s2|]; try discriminate.
-  - destruct (checked_add o1 s1) as [e1|] eqn:E1; [|discriminate]. apply checked_add_some in E1.
-    destruct (o2 <? e1) eqn:L1.
-    + destruct (checked_add o2 s2) as [e2|] eqn:E2; [|discriminate]. apply checked_add_some in E2.
-      inversion H. llia.
-    + llia.
-  - destruct (checked_add o1 s1) as [e1|] eqn:E1; [|discriminate]. apply checked_add_some in E1. inversion H. llia.
-  - destruct (checked_add o2 s2) as [e2|] eqn:E2; [|discriminate]. apply checked_add_some in E2. inversion H. llia.
+  destruct (bk_size b1) as [s1|], (bk_size b2) as [s2|]; try discriminate; inversion H as [H'].
+  - apply andb_false_iff in H'. destruct H' as [H'|H']; apply ends_after_false in H'; llia.
+  - apply ends_after_false in H'. llia.
+  - apply ends_after_false in H'. llia.
 Qed.
 
 Lemma windows_overlap_false_b b1 b2 : windows_overlap b1 b2 = Ok false -> windows_disjointb b1 b2 = true.
 Proof.
   unfold windows_overlap, windows_disjointb. intros H.
   destruct (bk_outp b1) as [o1|]; [|reflexivity]. destruct (bk_outp b2) as [o2|]; [|reflexivity].
-  destruct (bk_size b1) as [s1|], (bk_size b2) as [s2|]; try discriminate.
-  - destruct (checked_add o1 s1) as [e1|] eqn:E1; [|discriminate]. apply checked_add_some in E1.
-    destruct (o2 <? e1) eqn:L1.
-    + destruct (checked_add o2 s2) as [e2|] eqn:E2; [|discriminate]. apply checked_add_some in E2.
-      inversion H. llia.
-    + llia.
-  - destruct (checked_add o1 s1) as [e1|] eqn:E1; [|discriminate]. apply checked_add_some in E1. inversion H. llia.
-  - destruct (checked_add o2 s2) as [e2|] eqn:E2; [|discriminate]. apply checked_add_some in E2. inversion H. llia.
+  destruct (bk_size b1) as [s1|], (bk_size b2) as [s2|]; try discriminate; inversion H as [H'].
+  - apply andb_false_iff in H'. destruct H' as [H'|H']; apply ends_after_false in H'; llia.
+  - apply ends_after_false in H'. llia.
+  - apply ends_after_false in H'. llia.
 Qed.
 
 Lemma overlap_with_any_false b1 rest : overlap_with_any b1 rest = Ok false ->
@@ -165,34 +166,38 @@ Qed.
 Definition window_fits (b : bank) : Prop :=
   match bk_outp b, bk_size b with Some o, Some s => o + s <= usize_max | _, _ => True end.
 
-Lemma windows_overlap_no_panic b1 b2 : window_fits b1 -> window_fits b2 -> windows_overlap b1 b2 <> Panic.
+(* since /repo abbd199 (F48) the window comparison cannot panic: an unrepresentable window end "ends after everything" *)
+Lemma windows_overlap_never_panics b1 b2 : windows_overlap b1 b2 <> Panic.
 Proof.
-  unfold window_fits, windows_overlap. intros F1 F2.
-  destruct (bk_outp b1) as [o1|]; [|discriminate]. destruct (bk_outp b2) as [o2|]; [|discriminate].
-  destruct (bk_size b1) as [s1|], (bk_size b2) as [s2|]; try discriminate;
-    try rewrite (checked_add_fits o1 s1 F1); try rewrite (checked_add_fits o2 s2 F2); try discriminate.
-  destruct (o2 <? o1 + s1); discriminate.
+  unfold windows_overlap. destruct (bk_outp b1); [|discriminate]. destruct (bk_outp b2); [|discriminate].
+  destruct (bk_size b1), (bk_size b2); discriminate.
 Qed.
-Lemma overlap_with_any_no_panic b1 rest : window_fits b1 -> Forall window_fits rest -> overlap_with_any b1 rest <> Panic.
+Lemma windows_overlap_never_err b1 b2 : windows_overlap b1 b2 <> Err.
 Proof.
-  intros F1. induction 1 as [|b r Fb Fr IH]; cbn [overlap_with_any]; [discriminate|].
-  pose proof (windows_overlap_no_panic b1 b F1 Fb). destruct (windows_overlap b1 b) as [[|]| |] eqn:E; try discriminate; try congruence.
+  unfold windows_overlap. destruct (bk_outp b1); [|discriminate]. destruct (bk_outp b2); [|discriminate].
+  destruct (bk_size b1), (bk_size b2); discriminate.
 Qed.
-Lemma check_pairs_no_panic l : Forall window_fits l -> check_pairs l <> Panic.
+Lemma overlap_with_any_never_panics b1 rest : overlap_with_any b1 rest <> Panic.
 Proof.
-  induction 1 as [|b r Fb Fr IH]; cbn [check_pairs]; [discriminate|].
-  pose proof (overlap_with_any_no_panic b r Fb Fr). destruct (overlap_with_any b r) as [[|]| |] eqn:E; try discriminate; try congruence.
+  induction rest as [|b r IH]; cbn [overlap_with_any]; [discriminate|].
+  pose proof (windows_overlap_never_panics b1 b). destruct (windows_overlap b1 b) as [[|]| |]; try discriminate; congruence.
 Qed.
+Lemma check_pairs_never_panics l : check_pairs l <> Panic.
+Proof.
+  induction l as [|b r IH]; cbn [check_pairs]; [discriminate|].
+  pose proof (overlap_with_any_never_panics b r). destruct (overlap_with_any b r) as [[|]| |]; try discriminate; congruence.
+Qed.
+Theorem check_bank_overlap_never_panics banks : check_bank_overlap banks <> Panic.
+Proof. unfold check_bank_overlap. apply check_pairs_never_panics. Qed.
 
+(* two user banks whose windows share a bit are rejected -- unconditionally *)
 Theorem bank_windows_rejected banks i j b1 b2 k :
-  Forall window_fits banks ->
   (1 <= i)%nat -> (i < j)%nat -> nth_error banks i = Some b1 -> nth_error banks j = Some b2 ->
   in_window b1 k -> in_window b2 k -> check_bank_overlap banks = Err.
 Proof.
-  intros F Hi Hlt H1 H2 K1 K2.
+  intros Hi Hlt H1 H2 K1 K2.
   pose proof (bank_windows_complete banks i j b1 b2 k Hi Hlt H1 H2 K1 K2) as Hn.
-  assert (Hp : check_bank_overlap banks <> Panic).
-  { unfold check_bank_overlap. apply check_pairs_no_panic. destruct banks; [constructor|]. inversion F; assumption. }
+  pose proof (check_bank_overlap_never_panics banks) as Hp.
   destruct (check_bank_overlap banks) as [[]| |]; congruence.
 Qed.
 
@@ -337,11 +342,15 @@ Proof.
   destruct (checked_add outp pos) as [p|] eqn:E; [|discriminate]. apply checked_add_some in E.
   intros H. inversion H; subst. eauto.
 Qed.
-Lemma output_position_none b pos : get_output_position b pos = Ok None -> bk_outp b = None.
+(* no output position: the bank has no outp, or outp + position is not representable (/repo 6fb2301, F61) *)
+Lemma output_position_none b pos : get_output_position b pos = Ok None ->
+  bk_outp b = None \/ exists outp, bk_outp b = Some outp /\ usize_max < outp + pos.
 Proof.
-  unfold get_output_position. destruct (bk_outp b) as [outp|]; [|reflexivity].
-  destruct (checked_add outp pos); discriminate.
+  unfold get_output_position. destruct (bk_outp b) as [outp|]; [|auto].
+  unfold checked_add. destruct (outp + pos <=? usize_max) eqn:E; [discriminate|]. intros _. right. exists outp. split; [reflexivity|llia].
 Qed.
+Lemma get_output_position_never_panics b pos : get_output_position b pos <> Panic.
+Proof. unfold get_output_position. destruct (bk_outp b); discriminate. Qed.
 
 Lemma covered_one bank o size addr enc k :
   covered [mkItem bank (Some o) size addr enc] k = (0 <? size) && (o <=? k) && (k <? o + size).
@@ -598,19 +607,21 @@ Proof.
   destruct (Nat.eqb (length banks) 1) eqn:E; [apply Nat.eqb_eq in E; congruence | reflexivity].
 Qed.
 
+(* no side condition "pos + size fits in usize" any more: an unrepresentable end is past every bank size (/repo abbd199) *)
 Lemma output_past_size mb b pos size w sz :
-  bk_size b = Some sz -> sz < pos + size -> pos + size <= usize_max -> check_bank_output mb b pos size w = Err.
+  bk_size b = Some sz -> sz < pos + size -> check_bank_output mb b pos size w = Err.
 Proof.
-  intros Hs Hlt Hfit. unfold check_bank_output. rewrite Hs. rewrite (checked_add_fits _ _ Hfit).
+  intros Hs Hlt. unfold check_bank_output. rewrite Hs. unfold checked_add.
+  destruct (pos + size <=? usize_max); [|reflexivity].
   replace (sz <? pos + size) with true by llia. reflexivity.
 Qed.
 
 Lemma output_no_outp mb b pos size :
-  bk_outp b = None -> pos + size <= usize_max -> check_bank_output mb b pos size true = Err.
+  bk_outp b = None -> check_bank_output mb b pos size true = Err.
 Proof.
-  intros Ho Hfit. unfold check_bank_output. rewrite Ho.
-  destruct (bk_size b) as [sz|]; [|reflexivity]. rewrite (checked_add_fits _ _ Hfit).
-  destruct (sz <? pos + size); reflexivity.
+  intros Ho. unfold check_bank_output. rewrite Ho.
+  destruct (bk_size b) as [sz|]; [|reflexivity]. destruct (checked_add pos size); [|reflexivity].
+  destruct (sz <? n); reflexivity.
 Qed.
 
 Lemma usage_not_panic banks c : check_bank_usage banks c <> Panic.
@@ -618,41 +629,38 @@ Proof. unfold check_bank_usage. destruct (Nat.eqb (c_bank c) 0); [destruct (Nat.
 
 (* a write (instruction / data element) in any of the three per-item bad situations *)
 Theorem emit_rejected mb banks c b pos enc es out spans :
-  pos + N.of_nat (length enc) <= usize_max ->
   (c_bank c = 0%nat /\ length banks <> 1%nat) \/
   (exists sz, bk_size b = Some sz /\ sz < pos + N.of_nat (length enc)) \/
   bk_outp b = None ->
   emit_node mb banks c b pos (NEmit enc) es out spans = Err.
 Proof.
-  intros Hfit Hbad. cbn [emit_node].
+  intros Hbad. cbn [emit_node].
   destruct Hbad as [(H0 & H1)|[(sz & Hs & Hlt)|Ho]].
   - rewrite (usage_default_bank _ _ H0 H1). reflexivity.
   - pose proof (usage_not_panic banks c). destruct (check_bank_usage banks c) as [[]| |]; try congruence.
-    rewrite (output_past_size _ _ _ _ _ _ Hs Hlt Hfit). reflexivity.
+    rewrite (output_past_size _ _ _ _ _ _ Hs Hlt). reflexivity.
   - pose proof (usage_not_panic banks c). destruct (check_bank_usage banks c) as [[]| |]; try congruence.
-    rewrite (output_no_outp _ _ _ _ Ho Hfit). reflexivity.
+    rewrite (output_no_outp _ _ _ _ Ho). reflexivity.
 Qed.
 
 (* a reservation or a label past the bank's size, or in the default bank after #bankdef *)
 Theorem res_rejected mb banks c b pos k es out spans :
-  pos + k <= usize_max ->
   (c_bank c = 0%nat /\ length banks <> 1%nat) \/ (exists sz, bk_size b = Some sz /\ sz < pos + k) ->
   emit_node mb banks c b pos (NRes k) es out spans = Err.
 Proof.
-  intros Hfit Hbad. cbn [emit_node]. destruct Hbad as [(H0 & H1)|(sz & Hs & Hlt)].
+  intros Hbad. cbn [emit_node]. destruct Hbad as [(H0 & H1)|(sz & Hs & Hlt)].
   - rewrite (usage_default_bank _ _ H0 H1). reflexivity.
   - pose proof (usage_not_panic banks c). destruct (check_bank_usage banks c) as [[]| |]; try congruence.
-    rewrite (output_past_size _ _ _ _ _ _ Hs Hlt Hfit). reflexivity.
+    rewrite (output_past_size _ _ _ _ _ _ Hs Hlt). reflexivity.
 Qed.
 Theorem label_rejected mb banks c b pos d0 v es out spans :
-  pos <= usize_max ->
   (c_bank c = 0%nat /\ length banks <> 1%nat) \/ (exists sz, bk_size b = Some sz /\ sz < pos) ->
   emit_node mb banks c b pos (NSymbol true d0 v) es out spans = Err.
 Proof.
-  intros Hfit Hbad. cbn [emit_node]. destruct Hbad as [(H0 & H1)|(sz & Hs & Hlt)].
+  intros Hbad. cbn [emit_node]. destruct Hbad as [(H0 & H1)|(sz & Hs & Hlt)].
   - rewrite (usage_default_bank _ _ H0 H1). reflexivity.
   - pose proof (usage_not_panic banks c). destruct (check_bank_usage banks c) as [[]| |]; try congruence.
-    rewrite (output_past_size _ _ _ 0 _ _ Hs); [reflexivity | llia | llia].
+    rewrite (output_past_size _ _ _ 0 _ _ Hs); [reflexivity | llia].
 Qed.
 
 (* an item sharing a bit with an earlier write or reservation *)
